@@ -304,3 +304,63 @@ def illtyped_family():
         out.append(('fy_trap_%d' % k, [decl + stmt + '\n'], None))
         out.append(('fy_trap_rule_%d' % k, [decl + 'predicate P() { %s }\ngoal g = new P();\n' % stmt], None))
     return out
+
+
+def multi_super_family():
+    """C03: predicates with two or three direct super-predicates that carry arguments; a fact and a goal of the predicate agree
+    on its own argument while a constraint separates them on the argument inherited through the first / second / third
+    super-predicate (bounds overlap, so they look unifiable when the goal is expanded): the goal must be activated, or be
+    unified only with an atom whose arguments are all equal; (name, parts, True)"""
+    out = []
+    for nsup in (2, 3):
+        for typ in ('int', 'real'):
+            one = '1' if typ == 'int' else '1.0'
+            ten = '10' if typ == 'int' else '10.0'
+            zero = '0' if typ == 'int' else '0.0'
+            for which in range(nsup):
+                for form in ('geq1', 'neq', 'lt'):
+                    for sub in (True, False):
+                        sups = ['S%d' % i for i in range(nsup)]
+                        L = ['predicate S%d(%s a%d) { }' % (i, typ, i) for i in range(nsup)]
+                        L.append('predicate Prepared() { }')
+                        L.append('predicate Visit(%s place) : %s { %s }' % (typ, ', '.join(sups), 'goal p = new Prepared();' if sub else ''))
+                        L.append('fact v0 = new Visit(place:%s);' % one)
+                        L.append('goal v1 = new Visit(place:%s);' % one)
+                        for v in ('v0', 'v1'):
+                            for i in range(nsup):
+                                L.append('%s.a%d >= %s; %s.a%d <= %s;' % (v, i, zero, v, i, ten))
+                        a = 'a%d' % which
+                        L.append({'geq1': 'v1.%s >= v0.%s + %s;' % (a, a, one), 'neq': 'v1.%s != v0.%s;' % (a, a), 'lt': 'v1.%s < v0.%s;' % (a, a)}[form])
+                        out.append(('fm_%d_%s_%d_%s_%s' % (nsup, typ, which, form, 'sub' if sub else 'leaf'), ['\n'.join(L) + '\n'], True))
+    return out
+
+
+def cardinality_family():
+    """C01 / C02: n-ary exactly-one ('m0 ^ m1 ^ ... '), for n = 2..10 (pairwise and product encodings, arities that do and do
+    not fill the product grid), with operands forced true / false before or after the statement, and object variables over
+    n instances (the exactly-one of core::new_enum) with disequalities; (name, parts, solvable)"""
+    out = []
+    for n in range(2, 11):
+        ms = ['m%d' % i for i in range(n)]
+        decl = ''.join('bool %s;\n' % m for m in ms)
+        xor = ' ^ '.join(ms) + ';\n'
+        # nothing forced: exactly one must be true in the solution
+        out.append(('fk_%d_free' % n, [decl + xor], True))
+        for i in sorted({0, n // 2, n - 1}):
+            out.append(('fk_%d_one_%d' % (n, i), [decl + xor + ms[i] + ';\n'], True))
+            out.append(('fk_%d_one_first_%d' % (n, i), [decl + ms[i] + ';\n' + xor], True))
+        for (i, j) in sorted({(0, n - 1), (n - 2, n - 1), (0, 1)}):
+            if i != j:
+                out.append(('fk_%d_two_%d_%d' % (n, i, j), [decl + xor + ms[i] + ';\n' + ms[j] + ';\n'], False))
+                out.append(('fk_%d_two_first_%d_%d' % (n, i, j), [decl + ms[i] + ';\n' + ms[j] + ';\n' + xor], False))
+        out.append(('fk_%d_allfalse' % n, [decl + xor + ''.join('!%s;\n' % m if False else '%s == false;\n' % m for m in ms)], False))
+        out.append(('fk_%d_allbutone_false' % n, [decl + xor + ''.join('%s == false;\n' % m for m in ms[:-1])], True))
+        # a disjunction that can only be met by making a second operand true
+        if n >= 3:
+            out.append(('fk_%d_search' % n, [decl + xor + '%s | %s;\n%s | %s;\n' % (ms[n - 1], ms[n - 2], ms[n - 2], ms[0]), ], True))
+        # object variable over n instances
+        objs = 'class K { }\n' + ''.join('K k%d = new K();\n' % i for i in range(n))
+        out.append(('fk_%d_enum_neq' % n, [objs + 'K x;\n' + ''.join('x != k%d;\n' % i for i in range(n - 1))], True))
+        out.append(('fk_%d_enum_none' % n, [objs + 'K x;\n' + ''.join('x != k%d;\n' % i for i in range(n))], False))
+        out.append(('fk_%d_enum_two' % n, [objs + 'K x;\nK y;\nx == k%d;\ny == k%d;\nx == y;\n' % (n - 1, max(0, n - 2))], n == 1))
+    return out
